@@ -238,4 +238,60 @@ def insertSorted (x : Nat) : List Nat → List Nat
 
 def sortDedup (l : List Nat) : List Nat := l.foldr insertSorted []
 
+/-! ### the socket calls of one listener (`TcpSocketListener.listen`, `UnixSocketListener.listen`)
+
+`bindAll` above lets a fixed-port `bind` fail only against an address that is
+bound *now* by this process.  That is what the kernel does only for a socket
+with `SO_REUSEADDR` set **before** `bind`: otherwise connections of an earlier
+instance that linger in FIN_WAIT / TIME_WAIT on the listening address (the
+proxy closed them itself) make `bind` fail with EADDRINUSE, i.e. a restart on
+the same fixed port does not come up.  The order of the calls is therefore
+part of the model. -/
+
+inductive Fam | inet | inet6 | unix
+  deriving DecidableEq, Repr
+
+inductive SockOp
+  | socket (fam : Fam)
+  | setReuseAddr          -- setsockopt(SOL_SOCKET, SO_REUSEADDR, 1)
+  | setNoDelay            -- setsockopt(IPPROTO_TCP, TCP_NODELAY, 1)
+  | bind (port : Nat)     -- bind((host, port))
+  | bindPath              -- bind(unix_socket_path)
+  | listen (backlog : Nat)
+  | setNonBlocking        -- setblocking(False)
+  | getsockname
+  deriving DecidableEq, Repr
+
+/-- `TcpSocketListener.listen` -/
+def tcpListenOps (v6 : Bool) (port backlog : Nat) : List SockOp :=
+  [.socket (if v6 then .inet6 else .inet), .setReuseAddr, .setNoDelay, .bind port, .listen backlog,
+   .setNonBlocking, .getsockname]
+
+/-- `UnixSocketListener.listen` -/
+def unixListenOps (backlog : Nat) : List SockOp :=
+  [.socket .unix, .setReuseAddr, .bindPath, .listen backlog, .setNonBlocking]
+
+/-- what matters of one socket for `bind`: was `SO_REUSEADDR` set, is it bound, is it listening -/
+structure SockSt where
+  reuse : Bool
+  bound : Bool
+  listening : Bool
+  deriving DecidableEq, Repr
+
+/-- Kernel rule for the calls of one listener.  `lingering`: connections of an
+    earlier instance are still in FIN_WAIT / TIME_WAIT on the requested
+    address (no live listener is: that case is `bindAll`'s).  A fixed-port
+    `bind` then succeeds iff `SO_REUSEADDR` is already set; port 0 always gets
+    a free port; `listen` needs a bound socket. -/
+def runOps (lingering : Bool) : SockSt → List SockOp → Except Err SockSt
+  | st, [] => .ok st
+  | st, .setReuseAddr :: r => runOps lingering { st with reuse := true } r
+  | st, .bind port :: r =>
+    if lingering && port != 0 && !st.reuse then .error .addrInUse
+    else runOps lingering { st with bound := true } r
+  | st, .bindPath :: r => runOps lingering { st with bound := true } r
+  | st, .listen _ :: r =>
+    if st.bound then runOps lingering { st with listening := true } r else .error .addrInUse
+  | st, _ :: r => runOps lingering st r
+
 end Px.Listen
